@@ -143,7 +143,7 @@ def random_rankings(ctx: Ctx, n: int) -> None:
 
 
 def run(ctx: Ctx) -> None:
-    from ..frames import run_direct_frames
+    from ..frames import run_direct_frames, run_direct_frames_2d
     from ..scenario import run_manager_scenarios
 
     with Taps(ctx) as taps:
@@ -157,4 +157,5 @@ def run(ctx: Ctx) -> None:
         random_rankings(ctx, 300 if ctx.quick else 20000)
         run_manager_scenarios(ctx, "scenario", 60 if ctx.quick else 3000)
         run_direct_frames(ctx, "direct_frames", 100 if ctx.quick else 6000)
+        run_direct_frames_2d(ctx, "direct_frames_2d", 60 if ctx.quick else 3000)
         ctx.notes["taps"] = taps.installed
